@@ -10,6 +10,8 @@ from .gen import Env, prog
 
 ADDR1 = "7777777777777777777777777777777777777777777777777774MSJUVU"
 ADDR2 = "AAAAAAAAAAAAAAAAAAAAAAAAAAAAAAAAAAAAAAAAAAAAAAAAAAAAY5HFKQ"
+ADDR_T1 = "TMPLAAAAAAAAAAAAAAAAAAAAAAAAAAAAAAAAAAAAAAAAAAAAAAAPQWW44I"
+ADDR_T2 = "TMPL77777777777777777777777777777777777777777777777UTR5ZHY"
 
 INT_POOL = [0, 1, 2, 5, 127, 128, 129, 255, 256, 1000, 2 ** 32 - 1, 2 ** 32, 2 ** 63, 2 ** 64 - 1]
 
@@ -121,6 +123,9 @@ def const_family(mode: str, version: int, seed: int, thorough: bool = False):
     out.append(mk(mode, version, "bytes:addr-method",
                   [("Addr", ADDR1), ("Addr", ADDR2), ("Addr", ADDR1), msel[0], msel[1], msel[0],
                    ("Bytes", bytes(32)), ("Addr", ADDR2), ("BytesBase", "base16", "fe6baa64"), ("BytesBase", "base16", "fe6baa64")]))
+    # addresses whose text begins with the letters of the template prefix (T, M, P, L are base32 letters) are ordinary addresses
+    out.append(mk(mode, version, "bytes:addr-tmpl-lookalike",
+                  [("Addr", ADDR_T1), ("Addr", ADDR_T2), ("Addr", ADDR_T1), ("TmplAddr", "TMPL_ADDR1"), ("Addr", ADDR1), ("Addr", ADDR_T1), ("TmplAddr", "TMPL_ADDR1")]))
     # signature texts that differ only in spacing / letter case / non-ASCII letters are DIFFERENT selectors
     msel2 = [("MethodSig", "add(uint64, uint64)uint64"), ("MethodSig", "add(uint64,uint64)uint64"), ("MethodSig", "Add(uint64,uint64)uint64"),
              ("MethodSig", "gr\u00f6\u00dfe(uint64)void"), ("MethodSig", "groesse(uint64)void")]
